@@ -934,20 +934,30 @@ func main() {
 		}
 		cfgs = l
 	}
-	// searches: (configuration, block sub-alphabet, depth bound)
+	// searches: (configuration, block sub-alphabet, depth bound). The cheap 2-block
+	// searches run first, then the 4-block ones, each group breadth first over all
+	// its configurations (a budget cap then cuts the deepest level only).
 	pairs := [][]int{{0, 1}, {0, 2}, {0, 3}, {1, 2}, {1, 3}, {2, 3}}
-	var ss []*search
+	var ss, ss2, ss4 []*search
 	for i, c := range cfgs {
-		ss = append(ss, &search{c: c, depth: depth})
+		d4 := depth
+		if r.Thorough() && c.MaxFile == 0 && (c.Keep != 0 || c.Backup) {
+			// without a data-file size limit there is no roll-over, and keep/backup are
+			// only read on roll-over: these 12 configurations stay one level shallower
+			d4 = depth - 1
+		}
+		ss4 = append(ss4, &search{c: c, depth: d4})
 		if r.Thorough() {
 			for _, p := range pairs {
-				ss = append(ss, &search{c: c, alpha: p, depth: pairDepth})
+				ss2 = append(ss2, &search{c: c, alpha: p, depth: pairDepth})
 			}
 		} else {
-			ss = append(ss, &search{c: c, alpha: pairs[i%len(pairs)], depth: pairDepth})
+			ss2 = append(ss2, &search{c: c, alpha: pairs[i%len(pairs)], depth: pairDepth})
 		}
 	}
-	x.exploreAll(ss, samples)
+	x.exploreAll(ss2, samples)
+	x.exploreAll(ss4, samples)
+	ss = append(append(ss, ss4...), ss2...)
 	x.pool.Close()
 	per := map[string]interface{}{}
 	states, trans, exhaustive := 0, 0, true
